@@ -3,15 +3,67 @@ import MmtkModel.Lemmas.Map32FL
 import MmtkModel.Lemmas.Map32Ghost
 import MmtkModel.Lemmas.Map32Init
 /-!
-# C29 — Discontiguous chunk allocation keeps the region map consistent  (PARTIAL)
+# C29 — Discontiguous chunk allocation keeps the region map consistent  (history invariant PROVED for the model)
 
-Full statement (NOT yet proved; checked on the implementation by the oracle of `checks/C29.py` and
-on the executable model by the differential): for every history of `allocate_contiguous_chunks` /
-`free_contiguous_chunks` / `free_all_chunks` from the finalised state,
+Statement: for every history of `allocate_contiguous_chunks` / `free_contiguous_chunks` /
+`free_all_chunks` from the finalised state (`finalize_static_space_map`),
 `regions_disjoint ∧ descriptor_exact ∧ links_exact ∧ avail_exact` is an invariant.
 
-Proved here: the per-operation facts the inductive step of that invariant consists of — what a
-single free / allocate does to `avail`, the descriptors and the links, for **every** state.
+## Status: proved here (complete proofs, no assumption structure)
+
+* `Inv lo hi g st` — the invariant, for the discontiguous range `[lo, hi)` (`lo` = first chunk,
+  `hi` = last chunk + 1) and the bookkeeping `g : G` of the Python oracle of `checks/C29.py`
+  (`g.regions` = regions handed out and not yet freed with size and owner descriptor, `g.lists` =
+  per space the list of its region starts, head first).  Its fields:
+  `regions_disjoint` (`RegionsDisjoint`: regions non-empty, inside `[lo, hi)`, pairwise disjoint),
+  `descriptor_exact` (`DescriptorExact`: `desc x = d` inside a region allocated with `d`, `0` outside all
+  regions), `links_exact` (`LinksExact`: the lists partition the region starts without repetition, each
+  list is chained exactly by `next`/`prev` with `0` at both ends, every other chunk has no links),
+  `avail_exact` (`AvailExact`: `avail + Σ region sizes = hi - lo`), plus the coupling with the region map
+  (`lo_pos`: chunk 0 is the null address; `fl : FLInv lo hi st.fl`: runs non-empty and pairwise disjoint,
+  `order` = the starts of the free runs once each, free runs inside `[lo, hi)`; `reg_run`: every region
+  is an allocated run of the map, hence `get_contiguous_region_chunks` = its size, `Inv.region_chunks`).
+  The task sheet asked for `Inv : St → Prop`; the statement needs the range and the oracle's bookkeeping
+  (which regions were handed out to whom is not a function of `St` when a descriptor is used by two
+  lists), so `Inv` takes them as parameters and the history theorems compute `g` exactly as the oracle
+  does (`G.alloc`, `G.free`, `G.freeAll` in `Lemmas/Map32Ghost.lean`).
+* `inv_init` — `Inv first (last + 1) {} (finalize maxChunks first last)` for all
+  `0 < first ≤ last < maxChunks` (`Lemmas/Map32Init.lean`: `finalize_fl`, the code's own sequence of
+  free-list calls leaves one free run `[first, last + 1)`).
+* `inv_allocate`, `inv_free`, `inv_freeAll` — preservation by each operation, built on the
+  per-operation theorems `allocate_partial` / `freeNoLock_partial` below (kept unchanged) and on
+  `alloc_spec` / `freeRun_spec` (`Lemmas/Map32FL.lean`).  `inv_free` also gives: the call returns the
+  region's size.  `inv_allocate` covers the exhausted case (`0` returned, nothing changes).
+* `history_inv` (induction over the operation list), `history_inv_init` (from the finalised state) and
+  the user-facing corollaries `history_regions_disjoint`, `history_descriptor_exact`,
+  `history_links_exact`, `history_avail_exact`, `history_walk` (walking `get_next_contiguous_region`
+  from a list head visits exactly the list).
+* `step_isSome` / `history_no_panic` — under the invariant no assertion of
+  `allocate_contiguous_chunks` (`chunk != 0`, descriptor-empty `insert`, `next`/`prev` of the new
+  region zero) or `free_contiguous_chunks_no_lock` (`!get_free(unit)`) fires, debug or release.
+
+Hypotheses of the history theorems (`Valid` = `Pre` at every step; satisfiable: `example`s at the end):
+the callers' protocol — `chunks ≥ 1`, `head` is `0` or the current head of a list; only allocated region
+starts are freed; `free_all_chunks` gets `0` or a member of a list of at most `fuel + 1` regions (the
+model's two loops carry `fuel = 4096`; the code's loops are unbounded — `inv_freeAll`/`freeAll_spec` are
+stated for every `fuel`).  Without the protocol the statement is false for the code itself (pushing
+in front of a non-head corrupts the lists).
+
+## About the free list (no `FLAssumptions`)
+
+`Model/Map32.lean` does not go through `Mmtk.Runs` nor through the bit-level table: it carries its own
+run-level region map (`FL`, `FL.alloc`, `FL.freeRun`).  Every fact about it that the invariant needs
+is *proved* from those definitions in `Lemmas/Map32FL.lean` (`alloc_spec`, `alloc_none_iff`,
+`freeRun_spec`, `freeRun_eq_strong`), so there is no assumption structure and no axiom.  That the run-level
+map is what the bit-level `freelist.rs` table does is C26's refinement and the exact differential.
+
+## Not proved here
+
+* The oracle's extra check `map32:alloc-fails` (a `0` result implies that no `k` consecutive
+  unallocated chunks exist).  At the level of the region map it is `alloc_none_iff` (alloc fails iff no
+  free run has `k` units) and `freeRun_eq_strong` (free coalesces with every free neighbour); lifting it
+  to chunks needs two more invariant fields (the runs cover `[lo, hi)`; no two free runs are adjacent).
+  It is not one of the four invariants of C29.
 -/
 namespace Mmtk.Map32
 
@@ -925,5 +977,78 @@ theorem history_walk {M first last : Nat} (h1 : 0 < first) (h2 : first ≤ last)
   have hI := history_inv_init h1 h2 h3 hv hr
   exact walk_linked l 0 fuel (hI.links_exact.2.2.1 l hl)
     (fun m => hI.zero_not_mem (List.mem_flatten.2 ⟨l, hl, m⟩)) hf
+
+/-! ### The hypotheses are satisfiable: a concrete history -/
+
+instance instDecidablePre (g : G) : (op : Op) → Decidable (Pre g op)
+  | .alloc _ k head => inferInstanceAs (Decidable (1 ≤ k ∧ (head = 0 ∨ ∃ l ∈ g.lists, l.head? = some head)))
+  | .free c => inferInstanceAs (Decidable (∃ r ∈ g.regions, r.start = c))
+  | .freeAll c => inferInstanceAs (Decidable (c = 0 ∨ ∃ l ∈ g.lists, c ∈ l ∧ l.length ≤ 4096 + 1))
+
+/-- Executable version of `Valid`. -/
+def validB (debug : Bool) : G → St → List Op → Bool
+  | _, _, [] => true
+  | g, st, op :: ops =>
+    decide (Pre g op) && match step debug g st op with
+      | none => true
+      | some (g', st') => validB debug g' st' ops
+
+theorem valid_of_validB {debug : Bool} : ∀ (ops : List Op) {g : G} {st : St},
+    validB debug g st ops = true → Valid debug g st ops
+  | [], _, _, _ => trivial
+  | op :: ops, g, st, h => by
+    simp only [validB, Bool.and_eq_true, decide_eq_true_eq] at h
+    refine ⟨h.1, ?_⟩
+    cases hs : step debug g st op with
+    | none => trivial
+    | some p =>
+      obtain ⟨g', st'⟩ := p
+      rw [hs] at h
+      exact valid_of_validB ops h.2
+
+/-- A history on the range `[2, 10)` of a 12-chunk map, two spaces (descriptors 4 and 8): pushes on
+both lists, a free of a middle region, re-use of the freed chunks, `free_all_chunks` from the tail of a
+list, an exhausted allocation, and an allocation after it. -/
+def exOps : List Op :=
+  [.alloc 4 3 0, .alloc 4 2 2, .alloc 8 1 0, .alloc 4 1 5, .free 5, .alloc 8 1 7, .freeAll 2, .alloc 4 9 0,
+   .alloc 8 2 5]
+
+/-- What the examples look at: regions, lists, `avail`, and the tables on chunks `1 ..= 10`. -/
+structure View where
+  regions : List Reg
+  lists : List (List Nat)
+  avail : Nat
+  desc : List Nat
+  next : List Nat
+  prev : List Nat
+deriving Repr, DecidableEq
+
+def view (p : Option (G × St)) : Option View :=
+  p.map fun (g, st) => ⟨g.regions, g.lists, st.avail, (List.range' 1 10).map st.desc,
+    (List.range' 1 10).map st.next, (List.range' 1 10).map st.prev⟩
+
+/-- The history respects the protocol (debug and release). -/
+example : Valid true {} (finalize 12 2 9) exOps := valid_of_validB _ (by decide +kernel)
+example : Valid false {} (finalize 12 2 9) exOps := valid_of_validB _ (by decide +kernel)
+
+/-- After the first six operations: four regions on two lists. -/
+example : view (run true {} (finalize 12 2 9) (exOps.take 6)) =
+    some ⟨[⟨5, 1, 8⟩, ⟨8, 1, 4⟩, ⟨7, 1, 8⟩, ⟨2, 3, 4⟩], [[8, 2], [5, 7]], 2,
+      [0, 4, 4, 4, 8, 0, 8, 4, 0, 0], [0, 0, 0, 0, 7, 0, 0, 2, 0, 0], [0, 8, 0, 0, 0, 0, 5, 0, 0, 0]⟩ := by
+  decide +kernel
+
+/-- So `Inv` holds for a non-trivial state (`history_inv_init` applied to a concrete history). -/
+example : ∃ g st, run true {} (finalize 12 2 9) exOps = some (g, st) ∧ Inv 2 10 g st ∧ g.regions.length = 3 := by
+  obtain ⟨g, st, h⟩ := history_no_panic (debug := true) exOps
+    (inv_init (M := 12) (first := 2) (last := 9) (by decide) (by decide) (by decide))
+    (valid_of_validB _ (by decide +kernel))
+  refine ⟨g, st, h, history_inv_init (by decide) (by decide) (by decide) (valid_of_validB _ (by decide +kernel)) h, ?_⟩
+  have : (run true {} (finalize 12 2 9) exOps).map (fun p => p.1.regions.length) = some 3 := by decide +kernel
+  rw [h] at this
+  simpa using this
+
+/-- The harness's instance (`maxChunks = 2^25`, chunks `100 ..= 131`) satisfies `inv_init`'s hypotheses. -/
+example : Inv 100 (131 + 1) {} (finalize (2 ^ 25) 100 131) :=
+  inv_init (by decide) (by decide) (by omega)
 
 end Mmtk.Map32
